@@ -97,6 +97,8 @@ CARRIERS = [
     ("AbortMultipartUpload", "DELETE", "/my-bucket/k", [("uploadId", "u1")], b""),
     ("ListParts", "GET", "/my-bucket/k", [("uploadId", "u1")], b""),
     ("CreateMultipartUpload", "POST", "/my-bucket/k", [("uploads", "")], b""),
+    ("CompleteMultipartUpload", "POST", "/my-bucket/k", [("uploadId", "u1")],
+     b'<CompleteMultipartUpload xmlns="http://s3.amazonaws.com/doc/2006-03-01/"><Part><ETag>"e1"</ETag><PartNumber>1</PartNumber></Part></CompleteMultipartUpload>'),
 ]
 
 
